@@ -2,6 +2,8 @@
 Lockstep correspondence with coq/Model/Throttle.v + a monitor deciding the property on the
 implementation history itself (virtual timestamps)."""
 import throttle_common as tc
+LINE_PREEMPT = False     # the Throttle monitor reconstructs queue / counter state from the ADJACENCY of log entries of one thread:
+#                          runs with line-level preemption (drive.py) would be misread by it
 
 PROP = "C07"
 MACHINE = "throttle"
